@@ -353,9 +353,11 @@ class GeneratorObjectIterator(AsyncGenerator[T_co, T_contra]):
             return
         self.hooks_inited = True
         hooks = sys.get_asyncgen_hooks()
+        # capture the finalizer first: like a native async generator, the iterator is
+        # finalized also when the firstiter hook raised
+        self.finalizer = cast(Optional[Callable[[Any], None]], hooks.finalizer)
         if hooks.firstiter is not None:
             hooks.firstiter(self)
-        self.finalizer = cast(Optional[Callable[[Any], None]], hooks.finalizer)
 
     async def asend(self, value: Optional[T_contra]) -> T_co:
         if self.ag_running:
